@@ -65,6 +65,7 @@ class UnitResult:
         self.cmds = []
         self.log_tail = ""
         self.workdir = None
+        self.notes = []
 
 
 def src_line(path, line):
@@ -111,6 +112,14 @@ def build_unit(u, tier, wd, extra_defs=()):
     rc, out, err, _ = run(cmd, 120)
     if rc != 0:
         return None, "toolchain: goto-cc failed: " + (out + err)[-1500:], cmds
+    if u.get("plain") and u.get("replace_calls"):
+        igb = os.path.join(wd, "u.i.gb")
+        cmd = ["goto-instrument"] + sum((["--replace-calls", "%s:%s" % (a, b)] for a, b in u["replace_calls"].items()), []) + [gb, igb]
+        cmds.append(" ".join(cmd))
+        rc, out, err, _ = run(cmd, 300)
+        if rc != 0 or not os.path.exists(igb):
+            return None, "toolchain: goto-instrument --replace-calls failed: " + (out + err)[-1500:], cmds
+        return igb, "", cmds
     if u.get("plain"):
         return gb, "", cmds
     igb = os.path.join(wd, "u.i.gb")
@@ -134,7 +143,8 @@ def build_unit(u, tier, wd, extra_defs=()):
 
 
 def cbmc_cmd(u, tier, binary, extra=()):
-    cmd = ["cbmc", binary, "--no-malloc-may-fail"] + CBMC_CHECKS + ["--object-bits", str(u.get("object_bits", 12)), "--json-ui"]
+    checks = [c for c in CBMC_CHECKS if c not in u.get("drop_checks", [])]
+    cmd = ["cbmc", binary, "--no-malloc-may-fail"] + checks + ["--object-bits", str(u.get("object_bits", 12)), "--json-ui"]
     solver = u.get("solver", "cadical")
     if os.environ.get("VERIF_SOLVER"):
         solver = os.environ["VERIF_SOLVER"]
@@ -229,6 +239,12 @@ def run_unit(u, tier, keep=False, extra_defs=(), want_trace_for=None):
                   "function": loc.get("function", ""), "clause": clause, "bounded": bounded, "unit": u["name"]}
             if "trace" in pr:
                 ob["trace"] = pr["trace"]
+            if st == "FAILURE" and ".pointer_arithmetic." in name and "pointer outside object bounds" in desc and not tags:
+                # forming (not dereferencing) a pointer just outside its object: undefined behaviour by the letter of C, but no
+                # property in properties.jsonl forbids it (they speak about reads, writes and frees).  Reported as a note, not judged.
+                ob["status"] = "NOTE"
+                r.notes.append("%s: %s (%s:%s)" % (name, desc, os.path.basename(f), line))
+                continue
             if st == "FAILURE" and (".unwind." in name or "recursion" in name) :
                 # an unwinding assertion that fails means the bound is too small for this code: undecided, never a violation
                 r.status, r.reason = "undecided", "unwind-bound-too-small: %s (%s)" % (name, desc)
@@ -400,6 +416,7 @@ def main():
     ap.add_argument("-j", type=int, default=int(os.environ.get("VERIF_JOBS", "14")))
     ap.add_argument("-v", action="store_true")
     ap.add_argument("--no-evidence", action="store_true")
+    ap.add_argument("--define", action="append", default=[], help="extra -D for every unit (debugging)")
     args = ap.parse_args()
     tier = "thorough" if args.tier == "thorough" else "quick"
     seed = int(os.environ.get("VERIF_SEED", "0") or 0)
@@ -422,7 +439,7 @@ def _main(args, tier, seed, prop, t_start):
         print("UNDECIDED property=%s reason=no-units-registered" % prop)
         return 2
     with ThreadPoolExecutor(max_workers=args.j) as ex:
-        results = list(ex.map(lambda u: run_unit(u, tier, args.keep), units))
+        results = list(ex.map(lambda u: run_unit(u, tier, args.keep, extra_defs=args.define), units))
 
     known = [k for k in load_known() if k.get("property") == prop and not k.get("fixed")]
     undecided, violations, known_hits = [], [], []
@@ -443,9 +460,21 @@ def _main(args, tier, seed, prop, t_start):
     for ob in failing:
         byunit.setdefault(ob["unit"], []).append(ob)
     umap = {u["name"]: u for u in units}
+    # known findings: re-run each affected unit under assume(!class) (all such re-runs in parallel); an obligation that then
+    # passes is the listed finding, one that still fails is a different violation
+    kf_jobs = []
     for uname, obs in byunit.items():
-        u = umap[uname]
-        # known finding? re-run the unit under assume(!class): if the obligation then passes it is the listed one
+        for k in known:
+            if k.get("unit") not in (None, uname):
+                continue
+            if any(k["obligation"] in ob["tags"] or k["obligation"] == ob["name"] for ob in obs):
+                if not any(j[0] == uname and j[1] == k["exclude_define"] for j in kf_jobs):
+                    kf_jobs.append((uname, k["exclude_define"]))
+    with ThreadPoolExecutor(max_workers=args.j) as ex:
+        kf_res = list(ex.map(lambda j: run_unit(umap[j[0]], tier, extra_defs=list(args.define) + [j[1]]), kf_jobs))
+    kf_map = {j: r for j, r in zip(kf_jobs, kf_res)}
+    remaining_by_unit = {}
+    for uname, obs in byunit.items():
         remaining = list(obs)
         for k in known:
             if k.get("unit") not in (None, uname):
@@ -453,7 +482,7 @@ def _main(args, tier, seed, prop, t_start):
             hit = [ob for ob in remaining if k["obligation"] in ob["tags"] or k["obligation"] == ob["name"]]
             if not hit:
                 continue
-            r2 = run_unit(u, tier, extra_defs=[k["exclude_define"]])
+            r2 = kf_map[(uname, k["exclude_define"])]
             if r2.status != "ok":
                 undecided.append(r2)
                 continue
@@ -462,6 +491,10 @@ def _main(args, tier, seed, prop, t_start):
                 if ob_id(ob) not in still:
                     known_hits.append((k, ob))
                     remaining.remove(ob)
+        remaining_by_unit[uname] = remaining
+    for uname, obs in byunit.items():
+        u = umap[uname]
+        remaining = remaining_by_unit[uname]
         if not remaining:
             continue
         # fetch traces for the genuinely failing obligations
@@ -533,11 +566,15 @@ def _main(args, tier, seed, prop, t_start):
                    "failed": sum(1 for o in r.obligations if o["status"] == "FAILURE"),
                    "cover_points": len(r.cover), "cover_reached": sum(1 for _, ok in r.cover if ok), "canary_fails_as_required": r.canary,
                    "bounded": bool(r.unit.get("bounded")), "bound": r.unit.get("bound_note", ""),
-                   "solver_s": round(r.solver_s, 2), "cmds": r.cmds} for r in results],
+                   "solver_s": round(r.solver_s, 2),
+                   # exact commands: for '#' variant families only the first member carries them (they differ only in -D defines)
+                   "cmds": (r.cmds if ("#" not in r.unit["name"] or _first_variant(r.unit["name"], results)) else ["same as first variant; defines=" + " ".join(r.unit.get("defines", []))])}
+                  for r in results],
         "samples": samples,
         "not_decided": spec.get("not_decided", []),
         "explanation": spec.get("explanation", ""),
         "known_findings_reported": [k["what"] for k, _ in known_hits],
+        "ub_notes_not_judged": sorted(set(n for r in results for n in r.notes))[:40],
         "violations": [{"obligation": ob_id(o), "replay": rp, "native_confirmed": c} for o, rp, c in violations],
         "undecided_units": [{"unit": r.unit["name"], "reason": r.reason} for r in undecided],
         "exhaustive": False,
@@ -545,13 +582,17 @@ def _main(args, tier, seed, prop, t_start):
     ev = {"property_id": prop, "tier": tier, "seed": seed, "level": level, "coverage": cov,
           "assumptions": UNITS.ASSUMPTIONS + spec.get("assumptions", []) + scan_assumptions(units),
           "wall_s": round(wall, 2), "violations": len(violations)}
-    if not args.no_evidence and not args.unit:
+    if not args.no_evidence and not args.unit and not args.define:
         os.makedirs(os.path.join(VERIF, "evidence"), exist_ok=True)
         with open(os.path.join(VERIF, "evidence", prop + ".json"), "w") as f:
             json.dump(ev, f, indent=1)
 
+    printed = set()
     for k, ob in known_hits:
-        print("KNOWN-FINDING: property=%s %s [obligation %s]" % (prop, k["what"], ob_id(ob)))
+        if k["what"] not in printed:
+            printed.add(k["what"])
+            obs = sorted(set(ob_id(o) for kk, o in known_hits if kk["what"] == k["what"]))
+            print("KNOWN-FINDING: property=%s %s [%d obligations: %s%s]" % (prop, k["what"], len(obs), ", ".join(obs[:4]), ", ..." if len(obs) > 4 else ""))
     for ob, rp, confirmed in violations:
         print("  refuted obligation %s : %s" % (ob_id(ob), (ob["clause"] or ob["description"])[:200]))
         print("VIOLATION property=%s replay=%s%s" % (prop, rp, "" if confirmed else " no-failing-input-found"))
@@ -564,6 +605,14 @@ def _main(args, tier, seed, prop, t_start):
             print("UNDECIDED property=%s unit=%s reason=%s" % (prop, r.unit["name"], r.reason[:400]))
         return 2
     return 0
+
+
+def _first_variant(name, results):
+    fam = name.split("#")[0]
+    for r in results:
+        if r.unit["name"].split("#")[0] == fam:
+            return r.unit["name"] == name
+    return True
 
 
 def scan_assumptions(units):
